@@ -394,14 +394,19 @@ def w_array(name, m, t):
 def library():
     ws = [w_single_box(), w_nested_boxes(), w_lshape(), w_ushape(), w_background(),
           w_daughter("daughter_translated", NAMED["id"], (2, -2, 0), ["translated-daughter"])]
-    for k in ("rxp", "rxm", "ryp", "rym", "rzp", "rzm"):
-        ws.append(w_daughter("rot_" + k, NAMED[k], (2, 0, 0), ["rotated-daughter"]))
-    ws.append(w_daughter("rot_rz180", NAMED["rz180"], (0, 2, 0), ["rotated-daughter"]))
-    for k in ("mirx", "swapxy", "imp"):
-        ws.append(w_daughter("refl_" + k, NAMED[k], (2, 0, 2), ["reflected-daughter"]))
+    # one small world per quarter turn / reflection (the hole touches two faces of the world), ...
+    for k in ("rxp", "rxm", "ryp", "rym", "rzm"):
+        ws.append(w_daughter("rot_" + k, NAMED[k], (2, 0, 0), ["rotated-daughter", "coincident-daughter-faces"], small=True))
+    ws.append(w_daughter("rot_rz180", NAMED["rz180"], (0, 2, 0), ["rotated-daughter", "coincident-daughter-faces"], small=True))
+    for k in ("mirx", "swapxy"):
+        ws.append(w_daughter("refl_" + k, NAMED[k], (2, 0, 2), ["reflected-daughter", "coincident-daughter-faces"], small=True))
+    # ... the design-check worlds (also replayed) ...
     ws.append(w_daughter("mc_rzp", NAMED["rzp"], (2, 0, 0), ["rotated-daughter", "coincident-daughter-faces"], small=True))
     ws.append(w_daughter("mc_imp", NAMED["imp"], (0, 2, 0), ["reflected-daughter", "coincident-daughter-faces"], small=True))
     ws.append(w_daughter("mc_id", NAMED["id"], (0, 0, 2), ["translated-daughter", "coincident-daughter-faces"], small=True))
+    # ... and two with the hole strictly inside the world
+    ws.append(w_daughter("rot_rzp_big", NAMED["rzp"], (2, 0, 0), ["rotated-daughter"]))
+    ws.append(w_daughter("refl_cyc_big", NAMED["cyc"], (0, 0, 2), ["rotated-daughter"]))
     ws += [w_nested3(), w_nested3b(), w_coincident(), w_array("array221", NAMED["id"], (0, 0, 0)),
            w_array("array221_rot", NAMED["rxp"], (2, 0, 0)), w_adjacent()]
     return ws
